@@ -147,11 +147,15 @@ Proof.
   assert (C2 : PermsCover s2) by (apply create_user_cover, create_channel_cover, HC).
   unfold lookup_channel, lookup_user.
   destruct (alookup (fold chan_name) (st_channels s2)) as [c|]; [|discriminate].
-  destruct (alookup (fold (s_name src)) (st_users s2)) as [u|] eqn:Eu; [|discriminate].
+  destruct (alookup (fold (s_name src)) (st_users s2)) as [uf|] eqn:Eu; [|discriminate].
+  cbv zeta.
+  match goal with |- context [channel_add_user c (u_nick ?U)] => set (u := U) end.
+  assert (U0 : perms_cover u).
+  { unfold u. destruct (_ && _); [|exact (C2 _ _ Eu)]. exact (C2 _ _ Eu). }
   match goal with |- context [aset (fold (s_name src)) ?U (st_users s2)] => set (u2 := U) end.
   assert (U2 : perms_cover u2).
-  { pose proof (cover_add_channel u (c_name c) (C2 _ _ Eu)) as H1.
-    unfold u2. destruct rest as [|acct [|nm r2]]; [|destruct (streqb acct [42])..]; exact H1. }
+  { pose proof (cover_add_channel u (c_name c) U0) as H1.
+    unfold u2. destruct (e_account_tag e); (destruct rest as [|acct [|nm r2]]; [|destruct (streqb acct [42])..]); exact H1. }
   clearbody u2.
   assert (C3 : PermsCover (set_users (set_channels s2 (aset (fold chan_name) (channel_add_user c (u_nick u)) (st_channels s2)))
                                      (aset (fold (s_name src)) u2 (st_users s2)))).
